@@ -209,7 +209,12 @@ func (or *ObjectRegistry) applyConfig(config map[string]string) {
 			continue
 		}
 
-		if prevEntity != nil {
+		if prevEntity != nil && prevEntity.Spec().Kind() != entity.Spec().Kind() {
+			// the kind of the object changed, the new object can't inherit
+			// from the old one, so close the old one and create the new one.
+			deleted[name] = prevEntity
+			created[name] = entity
+		} else if prevEntity != nil {
 			updated[name] = entity
 		} else {
 			created[name] = entity
